@@ -1,5 +1,5 @@
 (* Proofs/UnknownP.v — C13: lemmas about Model/Unknown.v against Spec/UnknownSpec.v. *)
-From GV Require Import Lib.Bytes Lib.Res Gen.Consts Model.Binary Spec.Wire Model.Unknown Spec.UnknownSpec.
+From GV Require Import Lib.Bytes Lib.Res Gen.Consts Model.Binary Spec.Wire Proofs.BinaryP Model.Unknown Spec.UnknownSpec.
 From Coq Require Import ZifyN ZifyNat ZifyBool.
 Open Scope N_scope.
 
@@ -23,3 +23,466 @@ Lemma d9_without_reset :
   Ok [UF 1 12 0 0 (VFields [UF 1 13 8 10 (VFields [UF 0 8 0 0 (VI32 5); UF 0 10 0 0 (VI64 7)]);
                              UF 2 8 8 10 (VI32 9)])].
 Proof. vm_compute. reflexivity. Qed.
+
+(* ====================================================================================== *)
+(* item readers on an encoded item followed by anything                                    *)
+(* ====================================================================================== *)
+Ltac rd_inv H r :=
+  cbn [kind_of r_item] in H;
+  destruct r as [[? ?]|?|?|]; cbn [bind] in H; inversion H; subst; reflexivity.
+
+Lemma rd_bool b rest : r_bool (enc (IBool b) ++ rest) = Ok (b, len (enc (IBool b))).
+Proof. pose proof (r_item_enc (IBool b) rest eq_refl) as H. rd_inv H (r_bool (enc (IBool b) ++ rest)). Qed.
+Lemma rd_byte z rest : in_signedb 8 z = true -> r_byte (enc (IByte z) ++ rest) = Ok (z, len (enc (IByte z))).
+Proof. intros Hz. pose proof (r_item_enc (IByte z) rest Hz) as H. rd_inv H (r_byte (enc (IByte z) ++ rest)). Qed.
+Lemma rd_i16 z rest : in_signedb 16 z = true -> r_i16 (enc (II16 z) ++ rest) = Ok (z, len (enc (II16 z))).
+Proof. intros Hz. pose proof (r_item_enc (II16 z) rest Hz) as H. rd_inv H (r_i16 (enc (II16 z) ++ rest)). Qed.
+Lemma rd_i32 z rest : in_signedb 32 z = true -> r_i32 (enc (II32 z) ++ rest) = Ok (z, len (enc (II32 z))).
+Proof. intros Hz. pose proof (r_item_enc (II32 z) rest Hz) as H. rd_inv H (r_i32 (enc (II32 z) ++ rest)). Qed.
+Lemma rd_i64 z rest : in_signedb 64 z = true -> r_i64 (enc (II64 z) ++ rest) = Ok (z, len (enc (II64 z))).
+Proof. intros Hz. pose proof (r_item_enc (II64 z) rest Hz) as H. rd_inv H (r_i64 (enc (II64 z) ++ rest)). Qed.
+Lemma rd_double b rest : (b <? two64) = true -> r_double (enc (IDouble b) ++ rest) = Ok (b, len (enc (IDouble b))).
+Proof. intros Hz. pose proof (r_item_enc (IDouble b) rest Hz) as H. rd_inv H (r_double (enc (IDouble b) ++ rest)). Qed.
+Lemma rd_string s rest :
+  ((len s <? two31) && wfbb s)%bool = true -> r_string (enc (IString s) ++ rest) = Ok (s, len (enc (IString s))).
+Proof. intros Hz. pose proof (r_item_enc (IString s) rest Hz) as H. rd_inv H (r_string (enc (IString s) ++ rest)). Qed.
+
+Lemma rd_field_begin t id rest :
+  in_signedb 8 t = true -> in_signedb 16 id = true -> t <> 0%Z ->
+  r_field_begin (enc (IFieldBegin t id) ++ rest) = Ok (t, id, len (enc (IFieldBegin t id))).
+Proof.
+  intros Ht Hid Hnz.
+  assert (Hok : item_ok (IFieldBegin t id) = true).
+  { cbn [item_ok]. rewrite Ht, Hid. destruct (Z.eqb_spec t 0); [contradiction|reflexivity]. }
+  pose proof (r_item_enc (IFieldBegin t id) rest Hok) as H.
+  cbn [kind_of r_item] in H.
+  destruct (r_field_begin (enc (IFieldBegin t id) ++ rest)) as [[[t' id'] n]|?|?|]; cbn [bind] in H; try discriminate.
+  destruct (t' =? thrift_STOP)%Z; inversion H; subst. reflexivity.
+Qed.
+
+Lemma rd_field_stop rest : r_field_begin (enc IFieldStop ++ rest) = Ok (thrift_STOP, 0%Z, 1).
+Proof.
+  unfold r_field_begin. cbn [enc app]. rewrite need_ok by (rewrite len_cons; lia). cbn [bind nth].
+  change (i8 0) with 0%Z. change thrift_STOP with 0%Z. reflexivity.
+Qed.
+
+Lemma rd_map_begin kt vt sz rest :
+  in_signedb 8 kt = true -> in_signedb 8 vt = true -> sz < two32 ->
+  r_map_begin (enc (IMapBegin kt vt (Z.of_N sz)) ++ rest) = Ok (kt, vt, Z.of_N sz, len (enc (IMapBegin kt vt (Z.of_N sz)))).
+Proof.
+  intros Hk Hv Hs.
+  assert (Hok : item_ok (IMapBegin kt vt (Z.of_N sz)) = true).
+  { cbn [item_ok]. rewrite Hk, Hv. unfold two32 in *. cbn [andb]. lia. }
+  pose proof (r_item_enc _ rest Hok) as H. cbn [kind_of r_item] in H.
+  destruct (r_map_begin _) as [[[[? ?] ?] ?]|?|?|]; cbn [bind] in H; inversion H; subst. reflexivity.
+Qed.
+Lemma rd_list_begin et sz rest :
+  in_signedb 8 et = true -> sz < two32 ->
+  r_list_begin (enc (IListBegin et (Z.of_N sz)) ++ rest) = Ok (et, Z.of_N sz, len (enc (IListBegin et (Z.of_N sz)))).
+Proof.
+  intros Hk Hs.
+  assert (Hok : item_ok (IListBegin et (Z.of_N sz)) = true).
+  { cbn [item_ok]. rewrite Hk. unfold two32 in *. cbn [andb]. lia. }
+  pose proof (r_item_enc _ rest Hok) as H. cbn [kind_of r_item] in H.
+  destruct (r_list_begin _) as [[[? ?] ?]|?|?|]; cbn [bind] in H; inversion H; subst. reflexivity.
+Qed.
+Lemma rd_set_begin et sz rest :
+  in_signedb 8 et = true -> sz < two32 ->
+  r_set_begin (enc (IListBegin et (Z.of_N sz)) ++ rest) = Ok (et, Z.of_N sz, len (enc (IListBegin et (Z.of_N sz)))).
+Proof.
+  intros Hk Hs. pose proof (rd_list_begin et sz rest Hk Hs) as H.
+  unfold r_set_begin, r_list_begin, r_list_begin_gen, need in *.
+  destruct (len (enc (IListBegin et (Z.of_N sz)) ++ rest) <? 5); cbn [bind] in *; [discriminate|exact H].
+Qed.
+
+(* ====================================================================================== *)
+(* unfolding equations of the three recursive functions, one per type                     *)
+(* ====================================================================================== *)
+Section Unfold.
+  Variables (r : bool) (fuel : nat) (f0 : ufield) (buf : bytes) (id : Z).
+  Lemma read_field_0 ty : read_field r O f0 buf ty id = Err e_fuel. Proof. reflexivity. Qed.
+  Lemma read_field_bool : read_field r (S fuel) f0 buf T_BOOL id =
+    do (v, l) <- r_bool buf; Ok (UF id T_BOOL (uf_kt f0) (uf_vt f0) (VBool v), l). Proof. reflexivity. Qed.
+  Lemma read_field_byte : read_field r (S fuel) f0 buf T_BYTE id =
+    do (v, l) <- r_byte buf; Ok (UF id T_BYTE (uf_kt f0) (uf_vt f0) (VI8 v), l). Proof. reflexivity. Qed.
+  Lemma read_field_i16 : read_field r (S fuel) f0 buf T_I16 id =
+    do (v, l) <- r_i16 buf; Ok (UF id T_I16 (uf_kt f0) (uf_vt f0) (VI16 v), l). Proof. reflexivity. Qed.
+  Lemma read_field_i32 : read_field r (S fuel) f0 buf T_I32 id =
+    do (v, l) <- r_i32 buf; Ok (UF id T_I32 (uf_kt f0) (uf_vt f0) (VI32 v), l). Proof. reflexivity. Qed.
+  Lemma read_field_i64 : read_field r (S fuel) f0 buf T_I64 id =
+    do (v, l) <- r_i64 buf; Ok (UF id T_I64 (uf_kt f0) (uf_vt f0) (VI64 v), l). Proof. reflexivity. Qed.
+  Lemma read_field_double : read_field r (S fuel) f0 buf T_DOUBLE id =
+    do (v, l) <- r_double buf; Ok (UF id T_DOUBLE (uf_kt f0) (uf_vt f0) (VDouble v), l). Proof. reflexivity. Qed.
+  Lemma read_field_string : read_field r (S fuel) f0 buf T_STRING id =
+    do (v, l) <- r_string buf; Ok (UF id T_STRING (uf_kt f0) (uf_vt f0) (VStr v), l). Proof. reflexivity. Qed.
+  Lemma read_field_set : read_field r (S fuel) f0 buf T_SET id =
+    do (hd, l) <- r_set_begin buf;
+    let '(et, size) := hd in
+    if (size <? 0)%Z then Panic 3
+    else
+      do (xs, n) <- elems_loop (fun sub i => read_field r fuel uf_zero sub et i)
+                               (S (length buf)) (len buf) (drop l buf) l 0 (Z.to_N size) [];
+      Ok (UF id T_SET (uf_kt f0) et (VFields xs), n). Proof. reflexivity. Qed.
+  Lemma read_field_list : read_field r (S fuel) f0 buf T_LIST id =
+    do (hd, l) <- r_list_begin buf;
+    let '(et, size) := hd in
+    if (size <? 0)%Z then Panic 3
+    else
+      do (xs, n) <- elems_loop (fun sub i => read_field r fuel uf_zero sub et i)
+                               (S (length buf)) (len buf) (drop l buf) l 0 (Z.to_N size) [];
+      Ok (UF id T_LIST (uf_kt f0) et (VFields xs), n). Proof. reflexivity. Qed.
+  Lemma read_field_map : read_field r (S fuel) f0 buf T_MAP id =
+    do (hd, l) <- r_map_begin buf;
+    let '(kt, vt, size) := hd in
+    if (size * 2 <? 0)%Z then Panic 3
+    else
+      do (xs, n) <- pairs_loop (fun sub i => read_field r fuel uf_zero sub kt i)
+                               (fun sub i => read_field r fuel uf_zero sub vt i)
+                               (S (length buf)) (len buf) (drop l buf) l 0 (Z.to_N size) [];
+      Ok (UF id T_MAP kt vt (VFields xs), n). Proof. reflexivity. Qed.
+  Lemma read_field_struct : read_field r (S fuel) f0 buf T_STRUCT id =
+    do (xs, n) <- fields_loop r (read_field r fuel) (S (length buf)) (len buf) buf 0 uf_zero [];
+    Ok (UF id T_STRUCT (uf_kt f0) (uf_vt f0) (VFields xs), n). Proof. reflexivity. Qed.
+  Lemma read_field_other ty :
+    ty <> T_BOOL -> ty <> T_BYTE -> ty <> T_I16 -> ty <> T_I32 -> ty <> T_I64 -> ty <> T_DOUBLE ->
+    ty <> T_STRING -> ty <> T_SET -> ty <> T_LIST -> ty <> T_MAP -> ty <> T_STRUCT ->
+    read_field r (S fuel) f0 buf ty id = Err e_unknown_type.
+  Proof.
+    intros. cbn [read_field].
+    repeat match goal with |- context [(ty =? ?c)%Z] =>
+      let H := fresh in destruct (Z.eqb_spec ty c) as [H|H]; [exfalso; revert H; assumption|] end.
+    reflexivity.
+  Qed.
+End Unfold.
+
+Section UnfoldLW.
+  Variables (buf : bytes) (id kt vt : Z).
+  Lemma field_len_set l : field_len (UF id T_SET kt vt (VFields l)) = len_elems field_len l 5. Proof. reflexivity. Qed.
+  Lemma field_len_list l : field_len (UF id T_LIST kt vt (VFields l)) = len_elems field_len l 5. Proof. reflexivity. Qed.
+  Lemma field_len_map l : field_len (UF id T_MAP kt vt (VFields l)) = len_pairs field_len l 6. Proof. reflexivity. Qed.
+  Lemma field_len_struct l : field_len (UF id T_STRUCT kt vt (VFields l)) =
+    match len_fields field_len l 0 with Ok n => Ok (n + 1) | Err e => Err e | Panic w => Panic w | OOB => OOB end.
+  Proof. reflexivity. Qed.
+
+  Lemma write_field_set l : write_field buf (UF id T_SET kt vt (VFields l)) =
+    do (b1, n) <- w_list_begin buf vt (Z.of_N (len l)); w_elems write_field l b1 n. Proof. reflexivity. Qed.
+  Lemma write_field_list l : write_field buf (UF id T_LIST kt vt (VFields l)) =
+    do (b1, n) <- w_list_begin buf vt (Z.of_N (len l)); w_elems write_field l b1 n. Proof. reflexivity. Qed.
+  Lemma write_field_map l : write_field buf (UF id T_MAP kt vt (VFields l)) =
+    do (b1, n) <- w_map_begin buf kt vt (Z.of_N (len l / 2)); w_pairs write_field l b1 n. Proof. reflexivity. Qed.
+  Lemma write_field_struct l : write_field buf (UF id T_STRUCT kt vt (VFields l)) =
+    do (b1, n) <- w_fields write_field l buf 0;
+    do (b2, n2) <- on_slice b1 n w_field_stop;
+    Ok (b2, n + n2). Proof. reflexivity. Qed.
+End UnfoldLW.
+
+(* ====================================================================================== *)
+(* the shape of a canonical tree                                                           *)
+(* ====================================================================================== *)
+Inductive shape : ufield -> Prop :=
+| ShBool id b : shape (UF id T_BOOL 0 0 (VBool b))
+| ShByte id z : in_signedb 8 z = true -> shape (UF id T_BYTE 0 0 (VI8 z))
+| ShI16 id z : in_signedb 16 z = true -> shape (UF id T_I16 0 0 (VI16 z))
+| ShI32 id z : in_signedb 32 z = true -> shape (UF id T_I32 0 0 (VI32 z))
+| ShI64 id z : in_signedb 64 z = true -> shape (UF id T_I64 0 0 (VI64 z))
+| ShDouble id b : (b <? two64) = true -> shape (UF id T_DOUBLE 0 0 (VDouble b))
+| ShString id s : ((len s <? two31) && wfbb s)%bool = true -> shape (UF id T_STRING 0 0 (VStr s))
+| ShStruct id l : forallb canon l = true -> shape (UF id T_STRUCT 0 0 (VFields l))
+| ShMap id kt vt l : in_signedb 8 kt = true -> in_signedb 8 vt = true -> len l / 2 < two32 ->
+                     canon_pairs canon kt vt 0 l = true -> shape (UF id T_MAP kt vt (VFields l))
+| ShSet id vt l : in_signedb 8 vt = true -> len l < two32 -> canon_elems canon vt 0 l = true ->
+                  shape (UF id T_SET 0 vt (VFields l))
+| ShList id vt l : in_signedb 8 vt = true -> len l < two32 -> canon_elems canon vt 0 l = true ->
+                   shape (UF id T_LIST 0 vt (VFields l)).
+
+Lemma canon_shape f : canon f = true -> in_signedb 16 (uf_id f) = true /\ shape f.
+Proof.
+  destruct f as [id ty kt vt v]. cbn [canon uf_id].
+  intros H. apply andb_true_iff in H as [Hid H]. split; [exact Hid|].
+  repeat match type of H with
+  | (if (ty =? ?c)%Z then _ else _) = true =>
+    let E := fresh "E" in destruct (Z.eqb_spec ty c) as [E|E]
+  | (if ((ty =? ?c)%Z || (ty =? ?d)%Z)%bool then _ else _) = true =>
+    let E := fresh "E" in let E' := fresh "E" in
+    destruct (Z.eqb_spec ty c) as [E|E]; [|destruct (Z.eqb_spec ty d) as [E'|E']]; cbn [orb] in H
+  end; try discriminate; subst ty.
+  all: repeat match type of H with (_ && _)%bool = true => let H1 := fresh "H" in apply andb_true_iff in H as [H H1] end.
+  all: repeat match goal with Hx : (?a =? 0)%Z = true |- _ => apply Z.eqb_eq in Hx; subst a end.
+  all: destruct v; try discriminate.
+  all: constructor; auto; try lia; try (apply andb_true_iff; split; assumption).
+Qed.
+
+(* ====================================================================================== *)
+(* convert on the encoding of a canonical tree                                             *)
+(* ====================================================================================== *)
+Definition reads_back (fuel : nat) (x : ufield) : Prop :=
+  forall rest, read_field true fuel uf_zero (enc_tree x ++ rest) (uf_ty x) (uf_id x) = Ok (x, len (enc_tree x)).
+
+Lemma slice_at_ok blen pos cur : pos <= blen -> slice_at blen pos cur = Ok cur.
+Proof. intros H. unfold slice_at. destruct (N.leb_spec pos blen); [reflexivity|lia]. Qed.
+
+Lemma concat_cons_app (x : bytes) (xs : list bytes) (rest : bytes) : concat (x :: xs) ++ rest = x ++ (concat xs ++ rest).
+Proof. cbn [concat]. now rewrite app_assoc. Qed.
+
+Lemma elems_loop_ok fuel' et : forall l lf blen rest pos i acc,
+  Forall (reads_back fuel') l ->
+  canon_elems canon et i l = true ->
+  (length l < lf)%nat -> pos + len (concat (map enc_tree l)) <= blen ->
+  elems_loop (fun sub id => read_field true fuel' uf_zero sub et id) lf blen
+             (concat (map enc_tree l) ++ rest) pos i (i + len l) acc
+  = Ok (rev acc ++ l, pos + len (concat (map enc_tree l))).
+Proof.
+  induction l as [|x xs IH]; intros lf blen rest pos i acc Hrb Hc Hlf Hfit.
+  - destruct lf as [|lf']; [cbn [length] in Hlf; lia|].
+    cbn [elems_loop map concat]. rewrite len_nil, N.add_0_r, N.ltb_irrefl. now rewrite app_nil_r, N.add_0_r.
+  - destruct lf as [|lf']; [cbn [length] in Hlf; lia|].
+    inversion Hrb as [|? ? Hx Hxs]; subst.
+    cbn [canon_elems] in Hc.
+    apply andb_true_iff in Hc as [Hc Hc4]. apply andb_true_iff in Hc as [Hc Hc3].
+    apply andb_true_iff in Hc as [Hc1 Hc2].
+    apply Z.eqb_eq in Hc1, Hc2.
+    cbn [elems_loop map]. rewrite concat_cons_app.
+    rewrite len_cons.
+    destruct (N.ltb_spec i (i + (1 + len xs))) as [_|Hbad]; [|lia].
+    cbn [map concat] in Hfit. rewrite len_app in Hfit.
+    rewrite slice_at_ok by lia. cbn [bind].
+    pose proof (Hx (concat (map enc_tree xs) ++ rest)) as Hx'. rewrite Hc1, Hc2 in Hx'. rewrite Hx'. cbn [bind].
+    rewrite drop_app_len.
+    replace (i + (1 + len xs)) with ((i + 1) + len xs) by lia.
+    rewrite IH; auto.
+    + cbn [rev concat]. rewrite <- app_assoc, len_app. cbn [app]. f_equal. f_equal. lia.
+    + cbn [length] in Hlf. lia.
+    + lia.
+Qed.
+
+Lemma list_pair_ind {A} (P : list A -> Prop) :
+  P [] -> (forall x, P [x]) -> (forall a b r, P r -> P (a :: b :: r)) -> forall l, P l.
+Proof.
+  intros H0 H1 H2.
+  fix go 1. intros [|a [|b r]]; [exact H0|apply H1|apply H2, go].
+Qed.
+
+Lemma half_cons2 {A} (a b : A) r : len (a :: b :: r) / 2 = 1 + len r / 2.
+Proof.
+  rewrite !len_cons. replace (1 + (1 + len r)) with (1 * 2 + len r) by lia.
+  rewrite N.div_add_l by lia. reflexivity.
+Qed.
+
+Lemma pairs_loop_ok fuel' kt vt : forall l lf blen rest pos i acc,
+  Forall (reads_back fuel') l ->
+  canon_pairs canon kt vt i l = true ->
+  (length l < lf)%nat -> pos + len (concat (map enc_tree l)) <= blen ->
+  pairs_loop (fun sub id => read_field true fuel' uf_zero sub kt id)
+             (fun sub id => read_field true fuel' uf_zero sub vt id) lf blen
+             (concat (map enc_tree l) ++ rest) pos i (i + len l / 2) acc
+  = Ok (rev acc ++ l, pos + len (concat (map enc_tree l))).
+Proof.
+  induction l as [|x|k v r IH] using list_pair_ind; intros lf blen rest pos i acc Hrb Hc Hlf Hfit.
+  - destruct lf as [|lf']; [cbn [length] in Hlf; lia|].
+    cbn [pairs_loop map concat]. change (len (@nil ufield) / 2) with 0. change (len (@nil N)) with 0.
+    rewrite N.add_0_r, N.ltb_irrefl. now rewrite app_nil_r, N.add_0_r.
+  - cbn [canon_pairs] in Hc. discriminate.
+  - destruct lf as [|lf']; [cbn [length] in Hlf; lia|].
+    inversion Hrb as [|? ? Hk Hrb']; subst. inversion Hrb' as [|? ? Hv Hr]; subst.
+    cbn [canon_pairs] in Hc.
+    repeat match type of Hc with (_ && _)%bool = true =>
+      let H1 := fresh "Hc" in apply andb_true_iff in Hc as [Hc H1] end.
+    repeat match goal with H : (_ =? _)%Z = true |- _ => apply Z.eqb_eq in H end.
+    cbn [pairs_loop map]. rewrite !concat_cons_app. rewrite half_cons2.
+    destruct (N.ltb_spec i (i + (1 + len r / 2))) as [_|Hbad]; [|lia].
+    cbn [map concat] in Hfit. rewrite !len_app in Hfit.
+    rewrite slice_at_ok by lia. cbn [bind].
+    match goal with H1 : uf_ty k = kt, H2 : uf_id k = int16_of i |- _ =>
+      pose proof (Hk (enc_tree v ++ concat (map enc_tree r) ++ rest)) as Hk'; rewrite H1, H2 in Hk' end.
+    rewrite Hk'. cbn [bind]. rewrite drop_app_len.
+    rewrite slice_at_ok by lia. cbn [bind].
+    match goal with H1 : uf_ty v = vt, H2 : uf_id v = int16_of i |- _ =>
+      pose proof (Hv (concat (map enc_tree r) ++ rest)) as Hv'; rewrite H1, H2 in Hv' end.
+    rewrite Hv'. cbn [bind]. rewrite drop_app_len.
+    replace (i + (1 + len r / 2)) with ((i + 1) + len r / 2) by lia.
+    rewrite IH; auto.
+    + cbn [rev concat]. rewrite <- !app_assoc, !len_app. cbn [app]. f_equal. f_equal. lia.
+    + cbn [length] in Hlf. lia.
+    + lia.
+Qed.
+
+(* ---------- facts about canonical trees ---------- *)
+Lemma canon_ty_id x : canon x = true ->
+  in_signedb 8 (uf_ty x) = true /\ uf_ty x <> 0%Z /\ in_signedb 16 (uf_id x) = true.
+Proof.
+  intros H. destruct (canon_shape x H) as [Hid Hs]. split; [|split; [|exact Hid]].
+  - inversion Hs; reflexivity.
+  - inversion Hs; cbn [uf_ty]; discriminate.
+Qed.
+
+Lemma canon_enc_nonempty x : canon x = true -> (1 <= length (enc_tree x))%nat.
+Proof.
+  intros H. destruct (canon_shape x H) as [_ Hs].
+  inversion Hs; subst; cbn [enc_tree enc]; rewrite ?app_length, ?be_length; cbn [length]; try lia.
+  all: cbn; rewrite ?app_length; cbn [length]; lia.
+Qed.
+
+Lemma concat_len_in {A} (f : A -> bytes) x l : In x l -> (length (f x) <= length (concat (map f l)))%nat.
+Proof.
+  induction l as [|y ys IH]; intros Hin; [contradiction|].
+  cbn [map concat]. rewrite app_length. destruct Hin as [->|Hin]; [lia|]. specialize (IH Hin). lia.
+Qed.
+
+Lemma concat_len_ge (l : list ufield) :
+  Forall (fun x => canon x = true) l -> (length l <= length (concat (map enc_tree l)))%nat.
+Proof.
+  induction 1 as [|x xs Hx _ IH]; [cbn; lia|].
+  cbn [map concat length]. rewrite app_length. pose proof (canon_enc_nonempty x Hx). lia.
+Qed.
+
+Lemma canon_elems_all et : forall l i, canon_elems canon et i l = true -> Forall (fun x => canon x = true) l.
+Proof.
+  induction l as [|x xs IH]; intros i H; [constructor|].
+  cbn [canon_elems] in H. apply andb_true_iff in H as [H H2]. apply andb_true_iff in H as [_ H1].
+  constructor; [exact H1|exact (IH _ H2)].
+Qed.
+Lemma canon_pairs_all kt vt : forall l i, canon_pairs canon kt vt i l = true -> Forall (fun x => canon x = true) l.
+Proof.
+  induction l as [|x|k v r IH] using list_pair_ind; intros i H; [constructor|discriminate|].
+  cbn [canon_pairs] in H.
+  repeat match type of H with (_ && _)%bool = true =>
+    let H1 := fresh "Hc" in apply andb_true_iff in H as [H H1] end.
+  constructor; [assumption|constructor; [assumption|eapply IH; eassumption]].
+Qed.
+Lemma forallb_all (l : list ufield) : forallb canon l = true -> Forall (fun x => canon x = true) l.
+Proof. intros H. apply Forall_forall. intros x Hx. exact (proj1 (forallb_forall _ _) H x Hx). Qed.
+
+Lemma fields_cons_app x xs tail :
+  concat (map enc_tree_field (x :: xs)) ++ tail =
+  enc (IFieldBegin (uf_ty x) (uf_id x)) ++ (enc_tree x ++ (concat (map enc_tree_field xs) ++ tail)).
+Proof. cbn [map concat]. unfold enc_tree_field at 1. now rewrite <- !app_assoc. Qed.
+
+Lemma fields_loop_ok fuel' : forall l lf blen rest pos field acc,
+  Forall (reads_back fuel') l ->
+  Forall (fun x => canon x = true) l ->
+  (length l < lf)%nat -> pos + len (concat (map enc_tree_field l)) + 1 <= blen ->
+  fields_loop true (read_field true fuel') lf blen
+              (concat (map enc_tree_field l) ++ enc IFieldStop ++ rest) pos field acc
+  = Ok (rev acc ++ l, pos + len (concat (map enc_tree_field l)) + 1).
+Proof.
+  induction l as [|x xs IH]; intros lf blen rest pos field acc Hrb Hc Hlf Hfit.
+  - destruct lf as [|lf']; [cbn [length] in Hlf; lia|].
+    cbn [fields_loop map concat app]. change (len (@nil N)) with 0 in *.
+    rewrite slice_at_ok by lia. cbn [bind].
+    change (0 :: rest) with (enc IFieldStop ++ rest). rewrite rd_field_stop. cbn [bind].
+    rewrite Z.eqb_refl. rewrite app_nil_r. f_equal. f_equal. lia.
+  - destruct lf as [|lf']; [cbn [length] in Hlf; lia|].
+    inversion Hrb as [|? ? Hx Hxs]; subst. inversion Hc as [|? ? Hcx Hcxs]; subst.
+    destruct (canon_ty_id x Hcx) as (Ht & Hnz & Hid).
+    cbn [map concat] in Hfit. unfold enc_tree_field at 1 in Hfit. rewrite !len_app in Hfit.
+    rewrite fields_cons_app. cbn [fields_loop].
+    rewrite slice_at_ok by lia. cbn [bind].
+    rewrite rd_field_begin by assumption. cbn [bind].
+    change thrift_STOP with 0%Z.
+    destruct (Z.eqb_spec (uf_ty x) 0) as [E|_]; [contradiction|].
+    rewrite drop_app_len.
+    rewrite slice_at_ok by lia. cbn [bind].
+    rewrite Hx. cbn [bind]. rewrite drop_app_len.
+    rewrite IH; auto.
+    + cbn [rev map concat]. unfold enc_tree_field at 2. rewrite <- !app_assoc, !len_app. cbn [app]. f_equal. f_equal. lia.
+    + cbn [length] in Hlf. lia.
+    + lia.
+Qed.
+
+Lemma enc_tree_set id kt vt l : enc_tree (UF id T_SET kt vt (VFields l)) =
+  enc (IListBegin vt (Z.of_N (len l))) ++ concat (map enc_tree l). Proof. reflexivity. Qed.
+Lemma enc_tree_list id kt vt l : enc_tree (UF id T_LIST kt vt (VFields l)) =
+  enc (IListBegin vt (Z.of_N (len l))) ++ concat (map enc_tree l). Proof. reflexivity. Qed.
+Lemma enc_tree_map id kt vt l : enc_tree (UF id T_MAP kt vt (VFields l)) =
+  enc (IMapBegin kt vt (Z.of_N (len l / 2))) ++ concat (map enc_tree l). Proof. reflexivity. Qed.
+Lemma enc_tree_struct id kt vt l : enc_tree (UF id T_STRUCT kt vt (VFields l)) =
+  concat (map enc_tree_field l) ++ enc IFieldStop. Proof. reflexivity. Qed.
+
+Lemma length_enc_map kt vt sz : length (enc (IMapBegin kt vt sz)) = 6%nat.
+Proof. cbn [enc]. rewrite app_length, be_length. reflexivity. Qed.
+Lemma length_enc_list et sz : length (enc (IListBegin et sz)) = 5%nat.
+Proof. cbn [enc]. rewrite app_length, be_length. reflexivity. Qed.
+Lemma length_enc_fb t id : length (enc (IFieldBegin t id)) = 3%nat.
+Proof. cbn [enc]. rewrite app_length, be_length. reflexivity. Qed.
+
+Lemma children_read fuel' (l : list ufield) :
+  Forall (fun x => canon x = true -> forall fuel, (length (enc_tree x) < fuel)%nat -> reads_back fuel x) l ->
+  Forall (fun x => canon x = true) l ->
+  (forall x, In x l -> (length (enc_tree x) < fuel')%nat) ->
+  Forall (reads_back fuel') l.
+Proof.
+  intros IH Hc Hlen. apply Forall_forall. intros x Hx.
+  rewrite Forall_forall in IH, Hc. apply IH; auto.
+Qed.
+
+Lemma len_length {A} (l : list A) : len l = N.of_nat (length l). Proof. reflexivity. Qed.
+
+Lemma read_canon : forall x, canon x = true ->
+  forall fuel, (length (enc_tree x) < fuel)%nat -> reads_back fuel x.
+Proof.
+  induction x as [id ty kt vt v Hleaf|id ty kt vt l IH] using ufield_ind'; intros Hc fuel Hfuel rest;
+    destruct (canon_shape _ Hc) as [Hid Hs]; destruct fuel as [|fuel']; try lia;
+    inversion Hs; subst; try (exfalso; eapply Hleaf; reflexivity); cbn [uf_ty uf_id].
+  - cbn [enc_tree]. rewrite read_field_bool, rd_bool. reflexivity.
+  - cbn [enc_tree]. rewrite read_field_byte, rd_byte by assumption. reflexivity.
+  - cbn [enc_tree]. rewrite read_field_i16, rd_i16 by assumption. reflexivity.
+  - cbn [enc_tree]. rewrite read_field_i32, rd_i32 by assumption. reflexivity.
+  - cbn [enc_tree]. rewrite read_field_i64, rd_i64 by assumption. reflexivity.
+  - cbn [enc_tree]. rewrite read_field_double, rd_double by assumption. reflexivity.
+  - cbn [enc_tree]. rewrite read_field_string, rd_string by assumption. reflexivity.
+  - (* struct *)
+    match goal with H : forallb canon l = true |- _ => rename H into Hall end. apply forallb_all in Hall.
+    rewrite enc_tree_struct in *. rewrite read_field_struct. rewrite <- app_assoc.
+    rewrite app_length in Hfuel. change (length (enc IFieldStop)) with 1%nat in Hfuel.
+    rewrite fields_loop_ok; auto.
+    + cbn [bind rev app uf_kt uf_vt uf_zero]. rewrite len_app. reflexivity.
+    + apply children_read; auto. intros x Hx.
+      pose proof (concat_len_in enc_tree_field x l Hx) as Hle. unfold enc_tree_field at 1 in Hle.
+      rewrite app_length in Hle. lia.
+    + rewrite !app_length.
+      assert (length l <= length (concat (map enc_tree_field l)))%nat.
+      { clear -Hall. induction Hall as [|x xs Hx _ IHl]; [cbn; lia|].
+        cbn [map concat length]. unfold enc_tree_field at 1. rewrite !app_length.
+        pose proof (canon_enc_nonempty x Hx). lia. }
+      lia.
+    + rewrite !len_app. change (len (enc IFieldStop)) with 1. lia.
+  - (* map *)
+    match goal with H : canon_pairs _ _ _ _ _ = true |- _ => rename H into Hp end. pose proof (canon_pairs_all _ _ _ _ Hp) as Hall.
+    rewrite enc_tree_map in *. rewrite read_field_map. rewrite <- app_assoc.
+    rewrite app_length, length_enc_map in Hfuel.
+    rewrite rd_map_begin by assumption. cbn [bind].
+    destruct (Z.ltb_spec (Z.of_N (len l / 2) * 2) 0) as [Hneg|_]; [lia|].
+    rewrite N2Z.id, drop_app_len.
+    rewrite (pairs_loop_ok fuel' kt vt l _ _ rest _ 0 []); auto.
+    + cbn [bind rev app]. rewrite len_app. reflexivity.
+    + apply children_read; auto. intros x Hx.
+      pose proof (concat_len_in enc_tree x l Hx) as Hle. lia.
+    + rewrite !app_length. pose proof (concat_len_ge l Hall). lia.
+    + rewrite !len_app. lia.
+  - (* set *)
+    match goal with H : canon_elems _ _ _ _ = true |- _ => rename H into Hp end. pose proof (canon_elems_all _ _ _ Hp) as Hall.
+    rewrite enc_tree_set in *. rewrite read_field_set. rewrite <- app_assoc.
+    rewrite app_length, length_enc_list in Hfuel.
+    rewrite rd_set_begin by assumption. cbn [bind].
+    destruct (Z.ltb_spec (Z.of_N (len l)) 0) as [Hneg|_]; [lia|].
+    rewrite N2Z.id, drop_app_len.
+    rewrite (elems_loop_ok fuel' vt l _ _ rest _ 0 []); auto.
+    + cbn [bind rev app uf_kt uf_zero]. rewrite len_app. reflexivity.
+    + apply children_read; auto. intros x Hx.
+      pose proof (concat_len_in enc_tree x l Hx) as Hle. lia.
+    + rewrite !app_length. pose proof (concat_len_ge l Hall). lia.
+    + rewrite !len_app. lia.
+  - (* list *)
+    match goal with H : canon_elems _ _ _ _ = true |- _ => rename H into Hp end. pose proof (canon_elems_all _ _ _ Hp) as Hall.
+    rewrite enc_tree_list in *. rewrite read_field_list. rewrite <- app_assoc.
+    rewrite app_length, length_enc_list in Hfuel.
+    rewrite rd_list_begin by assumption. cbn [bind].
+    destruct (Z.ltb_spec (Z.of_N (len l)) 0) as [Hneg|_]; [lia|].
+    rewrite N2Z.id, drop_app_len.
+    rewrite (elems_loop_ok fuel' vt l _ _ rest _ 0 []); auto.
+    + cbn [bind rev app uf_kt uf_zero]. rewrite len_app. reflexivity.
+    + apply children_read; auto. intros x Hx.
+      pose proof (concat_len_in enc_tree x l Hx) as Hle. lia.
+    + rewrite !app_length. pose proof (concat_len_ge l Hall). lia.
+    + rewrite !len_app. lia.
+Qed.
